@@ -4,15 +4,19 @@ the default resource).  Tie: the verified oracle c03_b (+ report totals, resourc
 evaluated on the rows the implementation returns; a second pass (Sched/C03ReportCheck.check_report, meaning
 proved in C03_report_checker_meaning) evaluates the report / resources clauses one by one on every returned
 schedule: per-day totals = sums of the rows, Schedule.resources = exactly the supplied and the named
-resources, every other resource's tabulated capacity = the default calendar read from the source."""
+resources, every other resource's tabulated capacity = the default calendar read from the source; a third pass
+(props/captie.py, Sched/CapTie.check_captie, meaning proved in C03_captie_meaning / C03_captie_cap_nonneg) ties the
+tabulated capacity of EVERY resource of every on-grid case to the C17 calendar model evaluated inside Coq on the
+case's calendar expressions: the capacity function of the scheduler model is the calendar model."""
 import time
 
 from harness.props import sched_common as sc
+from harness.props import captie
 from harness.common import z, coq_list, coq_bool
 
 ID = 'C03'
 PROPS_FILE = 'Props/Props_C03.v'
-EXTRA_TARGETS = ['Sched/Case.vo', 'Sched/CaseOff.vo', 'Sched/C03ReportCheck.vo']
+EXTRA_TARGETS = ['Sched/Case.vo', 'Sched/CaseOff.vo', 'Sched/C03ReportCheck.vo', 'Sched/CapTie.vo']
 CONST_PARTS = ('sched',)
 FAIL = sc.BITS['c03']
 MISMATCH = sc.BITS['model_oracle']
@@ -83,9 +87,15 @@ def check_reports(ctx, kept, codes):
     ctx.coverage['report_pass_max_resources_named'] = max(named) if named else 0
 
 
+CAPTIE_QUICK_LIMIT = 400     # cases of the capacity-tie pass in the quick tier (all of them at present)
+
+
 def run(ctx):
     kept, codes = sc.run_property(ctx, ID, FAIL, MISMATCH, extra=extra, offgrid_fail=sc.BITS['c03'])
     check_reports(ctx, kept, codes)
+    # third pass: the tabulated capacity the model and the oracles ran with IS the C17 calendar model of the case's
+    # calendar expressions (Sched/CapTie.check_captie); a difference is a broken tie, not a failing input of C03
+    captie.check(ctx, kept, limit=CAPTIE_QUICK_LIMIT if ctx.tier == 'quick' else None)
     ctx.assumptions += [
         'C03 report pass: Schedule.resources is observed as the set of numbers of the resource names that some member task '
         'names (the runner numbers only those); a supplied resource that no task names is not observed, so code 3 '
@@ -102,3 +112,5 @@ def replay(ctx, rep):
     if kept:
         check_reports(ctx, kept, codes)
         print('replay: report pass codes %s' % ctx.coverage.get('report_pass_codes'))
+        tcodes = captie.check(ctx, kept)
+        print('replay: capacity tie (check_captie_full) %s' % tcodes)
